@@ -194,7 +194,8 @@ def gen_module(rng, mod_name, other_modules, size):
     return src
 
 
-def gen_project(rng, n_modules, size):
+def gen_project(rng, n_modules, size, shape=None):
+    """shape: None (seeded choice) | "ambiguous_import" | "case_collision" | "dotted_import" - the special project shape to add"""
     names = ["main_mod", "util_mod", "model_mod", "svc_mod"][:n_modules]
     files = {}
     for i, nm in enumerate(names):
@@ -202,6 +203,8 @@ def gen_project(rng, n_modules, size):
         path = nm + ".py" if rng.random() < 0.7 or i == 0 else f"pkg/{nm}.py"
         files[path] = gen_module(rng, nm, others, size)
     r = rng.random()
+    if shape is not None:
+        r = {"ambiguous_import": 0.1, "case_collision": 0.3, "dotted_import": 0.5}.get(shape, r)
     if r < 0.25:
         # an ambiguous import: the same module name in two packages, imported non-relatively from a third place
         for pk in ("pkg_a", "pkg_b"):
